@@ -62,6 +62,9 @@ pub struct FontSpec {
     pub morx: Option<Morx>,
     /// AAT feature name table ('feat'); not part of the Coq `font` term (printed separately, see coq.rs).
     pub feat: Option<Feat>,
+    /// TrueType outlines: per glyph None (empty glyph, no extents) or Some([x_min, y_min, x_max, y_max]) written as
+    /// one rectangular contour ('glyf' + long 'loca'); not part of the Coq `font` term.
+    pub glyf: Option<Vec<Option<[i16; 4]>>>,
     /// false: 'post' version 3.0 (no names); true: 'post' version 2.0 with names ".notdef", "g1", "g2", ...
     pub post_names: bool,
 }
@@ -695,6 +698,7 @@ impl FontSpec {
             kern: None,
             morx: None,
             feat: None,
+            glyf: None,
             post_names: false,
         }
     }
